@@ -392,6 +392,16 @@ class WSum(World):
           A(("upd S%d rl=[1,1]" % r, [["UpdateRecord", "Src", r, {"rl": ["L", 1, 1]}]]))
         if hs('n'):
           A(("upd S%d n" % r, [["UpdateRecord", "Src", r, {"n": 10}]]))
+        # the last source row moves to the front of the view order: groups stay in row id order
+        A(("upd S%d manualSort first" % r, [["UpdateRecord", "Src", r, {"manualSort": 0.5}]]))
+      if hs('k') and S and 'Src_summary_k' in doc.eng.tables:
+        # summary tables take formula columns only: a data column with a (trigger) formula must be
+        # refused like a plain data column (it would be taken for a group-by column)
+        for cid in ('trig', 'n'):
+          A(("FAIL addcol trigger %s into summary + upd" % cid, [
+              ["AddColumn", "Src_summary_k", cid, {"type": "Int", "isFormula": False, "formula": "1",
+                                                   "recalcWhen": 0}],
+              ["UpdateRecord", "Src", S[0], {"k": "c", "n": 77} if hs('n') else {"k": "c"}]]))
       vals = {}
       if hs('k'):
         vals['k'] = 'c'
@@ -1108,11 +1118,132 @@ def H_undo(group):
 
 
 # --------------------------------------------------------------------------------------------
+# W_views: widgets, pages, links, filters, field rules and display formulas that point across
+# tables (what survives when a table, a widget or a summary table goes away)
+# --------------------------------------------------------------------------------------------
+
+def _dm(doc):
+  return doc.eng.docmodel
+
+
+def _sections_of(doc, table_id, plain=True):
+  t = _dm(doc).tables.lookupOne(tableId=table_id)
+  if not t:
+    return []
+  return sorted(s.id for s in t.viewSections if not s.isRaw and not s.isRecordCard)
+
+
+def _views_setup1(doc):
+  # Orders' own page gets a summary widget by item; a second page shows Cust and Orders
+  o, c = table_ref(doc, 'Orders'), table_ref(doc, 'Cust')
+  view = _dm(doc).tables.lookupOne(tableId='Orders').primaryViewId.id
+  return [["CreateViewSection", o, view, "record", [col_ref(doc, 'Orders', 'item')], None],
+          ["CreateViewSection", c, 0, "record", None, None]]
+
+
+def _views_setup2(doc):
+  o = table_ref(doc, 'Orders')
+  view2 = max(v.id for v in _dm(doc).views.all)
+  return [["CreateViewSection", o, view2, "record", None, None]]
+
+
+def _views_setup3(doc):
+  # link the Orders widget of page 2 to the Cust widget (select by cust), give it a saved filter;
+  # a conditional rule on a field of the summary widget; a display formula on a record-card field
+  view2 = max(v.id for v in _dm(doc).views.all)
+  secs = {s.tableRef.tableId: s.id for s in _dm(doc).views.table.get_record(view2).viewSections}
+  summ = _dm(doc).tables.lookupOne(tableId='Orders_summary_item')
+  ssec = _sections_of(doc, 'Orders_summary_item')[0]
+  sfield = [f.id for f in _dm(doc).view_sections.table.get_record(ssec).fields
+            if f.colRef.colId == 'count'][0]
+  card = _dm(doc).tables.lookupOne(tableId='Orders').recordCardViewSectionRef
+  cfield = [f.id for f in card.fields if f.colRef.colId == 'cust'][0]
+  return [
+      ["UpdateRecord", "_grist_Views_section", secs['Orders'], {
+          "linkSrcSectionRef": secs['Cust'], "linkSrcColRef": 0,
+          "linkTargetColRef": col_ref(doc, 'Orders', 'cust')}],
+      ["AddRecord", "_grist_Filters", None, {"viewSectionRef": secs['Orders'],
+                                             "colRef": col_ref(doc, 'Orders', 'item'),
+                                             "filter": '{"included": ["pen"]}', "pinned": True}],
+      # (display helper first: its column row id then coincides with a row id of a record-card
+      # field, the two id spaces a copy of the card's settings must keep apart)
+      ["SetDisplayFormula", "Orders", cfield, None, "$cust.name"],
+      ["AddEmptyRule", "Orders_summary_item", sfield, 0],
+  ]
+
+
+def _views_setup4(doc):
+  # a second link, by a column of the SOURCE widget's table (Cust.best -> Orders rows)
+  view2 = max(v.id for v in _dm(doc).views.all)
+  o = table_ref(doc, 'Orders')
+  return [["CreateViewSection", o, view2, "single", None, None]]
+
+
+VIEWS_SETUP = [
+    # (a Ref column is only wired to its target table if that table exists when it is created)
+    [["AddTable", "Cust", [{"id": "name", "type": "Text"}]]],
+    [["AddTable", "Orders", [{"id": "item", "type": "Text"}, {"id": "qty", "type": "Int"},
+                             {"id": "cust", "type": "Ref:Cust"}]]],
+    [["AddColumn", "Cust", "best", {"type": "Ref:Orders", "isFormula": False}]],
+    [["BulkAddRecord", "Cust", [None, None], {"name": ["ann", "bob"]}],
+     ["BulkAddRecord", "Orders", [None, None, None], {"item": ["pen", "ink", "pen"], "qty": [1, 2, 3],
+                                                      "cust": [1, 2, 1]}]],
+    _views_setup1,
+    _views_setup2,
+    _views_setup3,
+    _views_setup4,
+]
+
+
+class WViews(World):
+  name = 'W_views'
+  setup = VIEWS_SETUP
+
+  def alphabet(self, doc):
+    out = []
+    A = out.append
+    dm = _dm(doc)
+    tabs = sorted(t.tableId for t in dm.tables.all)
+    for t in ('Orders', 'Cust', 'Orders_summary_item'):
+      if t in tabs and not (t.startswith('Orders_summary') and False):
+        if not dm.tables.lookupOne(tableId=t).summarySourceTable:
+          A(("remtable %s" % t, [["RemoveTable", t]]))
+    for t in tabs:
+      for k, sid in enumerate(_sections_of(doc, t)):
+        A(("remsection %s #%d" % (t, k), [["RemoveRecord", "_grist_Views_section", sid]]))
+    for t in tabs:
+      trec = dm.tables.lookupOne(tableId=t)
+      if trec.summarySourceTable:
+        src = trec.summarySourceTable.tableId
+        for k, sid in enumerate(_sections_of(doc, t)):
+          A(("regroup %s #%d -> []" % (t, k), [["UpdateSummaryViewSection", sid, []]]))
+          if has_col(doc, src, 'qty'):
+            A(("regroup %s #%d -> [qty]" % (t, k), [["UpdateSummaryViewSection", sid,
+                                                     [col_ref(doc, src, 'qty')]]]))
+          A(("detach %s #%d" % (t, k), [["DetachSummaryViewSection", sid]]))
+    if 'Orders' in tabs:
+      for c in ('item', 'cust', 'qty'):
+        if has_col(doc, 'Orders', c):
+          A(("remcol Orders.%s" % c, [["RemoveColumn", "Orders", c]]))
+      A(("duptable Orders", [["DuplicateTable", "Orders", "Orders2", False]]))
+      A(("add card widget Orders", [["CreateViewSection", table_ref(doc, 'Orders'),
+                                     max(v.id for v in dm.views.all), "single", None, None]]))
+      A(("addcol Orders.note", [["AddColumn", "Orders", "note", {"type": "Text"}]]))
+    if 'Cust' in tabs and has_col(doc, 'Cust', 'name'):
+      A(("remcol Cust.name", [["RemoveColumn", "Cust", "name"]]))
+    for k, v in enumerate(sorted(v.id for v in dm.views.all)):
+      A(("remview #%d" % k, [["RemoveView", v]]))
+    for k, p in enumerate(sorted(p.id for p in dm.pages.all)[:2]):
+      A(("rempage #%d" % k, [["RemoveRecord", "_grist_Pages", p]]))
+    return out
+
+
+# --------------------------------------------------------------------------------------------
 # World sets per property family
 # --------------------------------------------------------------------------------------------
 
 ALL = {'W_rec': WRec, 'W_schema': WSchema, 'W_sum': WSum, 'W_2way': W2Way, 'W_trig': WTrig,
-       'W_look': WLook, 'W_sumsum': WSumSum, 'W_pos': WPos, 'W_names': WNames, 'W_look2': WLook2}
+       'W_look': WLook, 'W_sumsum': WSumSum, 'W_pos': WPos, 'W_names': WNames, 'W_look2': WLook2, 'W_views': WViews}
 
 
 def make(names):
